@@ -364,12 +364,12 @@ def quoteAbsent (lenOf : Nat → Nat) : Option QV → Bool
 
 /-- lines 50-92 as a decision: which value is recorded and formatted — the configured one, the parsed default, or nothing;
     a default that does not parse is an error BEFORE anything is recorded -/
-def quoteDecision {ε α : Type} (absent : Bool) (configured : α) (dflt : Option String) (parse : String → Except ε α) :
-    Except ε (Option α) :=
+def quoteDecision {ε α S : Type} (absent : Bool) (configured : α) (dflt : Option S) (dEmpty : S → Bool)
+    (parse : S → Except ε α) : Except ε (Option α) :=
   if absent then
     match dflt with
     | none => .ok none
-    | some d => if d == "" then .ok none else (parse d).map some
+    | some d => if dEmpty d then .ok none else (parse d).map some
   else .ok (some configured)
 
 /-- the callback on node i: `splitN` = strings.SplitN(exp, ":", 2), `cfg` = Configure.Get, `parse` = strconv2.ParseAny,
@@ -378,7 +378,7 @@ def quoteCb (splitN : String → String × Option String) (cfg : String → Opti
     (parse : String → Except String Nat) (fmtAny : Nat → Except String String) (i : Nat) (exp : String) (w : SW) :
     Except String String × SW :=
   let key := (splitN exp).1
-  match quoteDecision (quoteAbsent lenOf (cfg key)) ((cfg key).map (·.1) |>.getD 0) (splitN exp).2 parse with
+  match quoteDecision (quoteAbsent lenOf (cfg key)) ((cfg key).map (·.1) |>.getD 0) (splitN exp).2 (· == "") parse with
   | .error e => (.error e, w)
   | .ok none => (.ok "", w ++ [.setCfg i key none])
   | .ok (some a) => (fmtAny a, w ++ [.setCfg i key (some a)])
